@@ -1397,6 +1397,19 @@ Module FlexTrees.
   Proof. exact bf_engine_partial. Qed.
   Print Assumptions C04_blockflex_engine_partial.
 
+  (* the functional reading on fresh trees: scaled tree (every style length, every measure function) and scaled input -- the run succeeds iff
+     the original does, and the root output and EVERY node's stored unrounded layout are the original ones x k *)
+  Theorem C04_blockflex_engine_scaled_layouts_partial : forall k, 0 < k ->
+    forall f (t t' : sk (BFNode XQ)) i o t1,
+      skrel (BFNode XQ) (bfnode_rel k) t t' ->
+      bf_memo_t (Fin k) f (bfk_fresh t') (fin_scale k i) = bf_memo f (bfk_fresh t') (fin_scale k i) ->
+      bf_memo f (bfk_fresh t) i = Some (o, t1) ->
+      exists o' t1',
+        bf_memo f (bfk_fresh t') (fin_scale k i) = Some (o', t1') /\ output_rel k o o' /\
+        Forall2 (flay_rel k) (lays (BFNode XQ) (FIn XQ) (LayoutOutput XQ) (FLay XQ) t1) (lays (BFNode XQ) (FIn XQ) (LayoutOutput XQ) (FLay XQ) t1').
+  Proof. exact bf_engine_scaled_layouts. Qed.
+  Print Assumptions C04_blockflex_engine_scaled_layouts_partial.
+
   (* non-vacuity (Model/BlockFlexExample.v): 10 nodes -- block root, leaf, FLEX ROW container stretched by the block root (definite main size)
      with a growing item (flex-basis 40), a fixed-width item, a nested FLEX COLUMN container sized by content (intrinsic main size when it is
      measured), a display:none child and an absolute child --, k = 5/2: the premises hold, both sides evaluated, boxes as listed, every field
